@@ -646,9 +646,18 @@ def _do_concurrent_saves(ctx, pool, fs, files, objs, kind, o):
     import threading
     sa = objs[o['t'] % len(objs)]
     sb = objs[(o['t'] // 7 + 1) % len(objs)]
-    pair = [(sa, fs.new_path('pkl')), (sb, fs.new_path('pkl'))]
-    twins = [rec_any(s_.obj) for s_, _ in pair]
     r = _random.Random(o['seed'])
+    fts = [r.choice(['pkl', 'pkl', 'hdf5']), r.choice(['pkl', 'pkl', 'hdf5'])]
+    def _has_none(obj):
+        for dname in ('rdm_descriptors', 'pattern_descriptors', 'obs_descriptors', 'channel_descriptors', 'time_descriptors'):
+            for v in getattr(obj, dname, {}).values():
+                if v is None or any(x is None for x in v):
+                    return True
+        return False
+    # (None entries are not among the descriptor value types HDF5 takes, see _do_save: such objects go to pickle)
+    fts = ['pkl' if _has_none(s_.obj) else f_ for s_, f_ in zip((sa, sb), fts)]
+    pair = [(sa, fs.new_path('pkl' if fts[0] == 'pkl' else 'h5')), (sb, fs.new_path('pkl' if fts[1] == 'pkl' else 'h5'))]
+    twins = [rec_any(s_.obj) for s_, _ in pair]
     st = {'turn': 0, 'done': [False, False], 'err': [None, None], 'switches': 0}
     cond = threading.Condition()
     ident = {}
@@ -673,7 +682,7 @@ def _do_concurrent_saves(ctx, pool, fs, files, objs, kind, o):
             while st['turn'] != me:
                 cond.wait()
         try:
-            pair[me][0].obj.save(pair[me][1], file_type='pkl')
+            pair[me][0].obj.save(pair[me][1], file_type=fts[me])
         except BaseException as ex:       # noqa
             ex.__traceback__ = None
             st['err'][me] = ex
@@ -683,7 +692,7 @@ def _do_concurrent_saves(ctx, pool, fs, files, objs, kind, o):
             cond.notify_all()
 
     for me in (0, 1):
-        fs.tick('save', target=fs.rel(pair[me][1]), ft='pkl', overwrite=False, fault=None, obj=pair[me][0].sid, concurrent=me)
+        fs.tick('save', target=fs.rel(pair[me][1]), ft=fts[me], overwrite=False, fault=None, obj=pair[me][0].sid, concurrent=me)
     fs.on_io = yield_point
     threads = [threading.Thread(target=worker, args=(me,), daemon=True) for me in (0, 1)]
     try:
@@ -700,8 +709,8 @@ def _do_concurrent_saves(ctx, pool, fs, files, objs, kind, o):
     for me in (0, 1):
         if st['err'][me] is not None:
             ex = st['err'][me]
-            ctx.violation('fs_model.save_raises', f'save:{kind}:pkl:concurrent:raises:{type(ex).__name__}',
-                          f'one of two pickle saves in flight at once (different target names, same folder) raised '
+            ctx.violation('fs_model.save_raises', f'save:{kind}:{fts[me]}:concurrent:raises:{type(ex).__name__}',
+                          f'one of two saves in flight at once ({fts[0]} and {fts[1]}, different target names, same folder) raised '
                           f'{type(ex).__name__}: {str(ex)[:200]}')
             return
     for me in (0, 1):
@@ -710,7 +719,7 @@ def _do_concurrent_saves(ctx, pool, fs, files, objs, kind, o):
             frozen = slot.obj.copy() if hasattr(slot.obj, 'copy') else slot.obj
         except Exception:
             frozen = slot.obj
-        e = {'path': path, 'ft': 'pkl', 'kind': kind, 'twin': twins[me], 'handle': None, 'crash': None, 'obj': frozen,
+        e = {'path': path, 'ft': fts[me], 'kind': kind, 'twin': twins[me], 'handle': None, 'crash': None, 'obj': frozen,
              'via': 'concurrent', 'overwrite': False}
         files.entries.append(e)
         _load_and_compare(ctx, pool, fs, e, kind, path, 'path')
